@@ -31,7 +31,7 @@ func regField(st types.Type, i int) string {
 }
 
 func regArr(elem types.Type) string {
-	n := "HA:" + scratch.sortOf(elem)
+	n := "HA:" + heapTypeKey(elem)
 	if _, ok := theReg.sortFn[n]; !ok {
 		theReg.sortFn[n] = func(vc *VC) string { _, s := vc.arrHeap(elem); return s }
 	}
@@ -39,7 +39,7 @@ func regArr(elem types.Type) string {
 }
 
 func regCell(t types.Type) string {
-	n := "HV:" + scratch.sortOf(t)
+	n := "HV:" + heapTypeKey(t)
 	if _, ok := theReg.sortFn[n]; !ok {
 		theReg.sortFn[n] = func(vc *VC) string { _, s := vc.cellHeap(t); return s }
 	}
@@ -47,7 +47,7 @@ func regCell(t types.Type) string {
 }
 
 func regMap(mt *types.Map) (string, string) {
-	k, v := scratch.sortOf(mt.Key()), scratch.sortOf(mt.Elem())
+	k, v := heapTypeKey(mt.Key()), heapTypeKey(mt.Elem())
 	dn, vn := "HMd:"+k+":"+v, "HMv:"+k+":"+v
 	if _, ok := theReg.sortFn[dn]; !ok {
 		theReg.sortFn[dn] = func(vc *VC) string { _, s, _, _ := vc.mapHeaps(mt); return s }
@@ -515,4 +515,14 @@ func (P *Prog) heapsForType(t types.Type, vc *VC) []string {
 		return pointeeHeaps(t)
 	}
 	return []string{regCell(t)}
+}
+
+// heapTypeKey names the Go type class whose values share a heap variable: values of different
+// Go element types can never alias the same backing store (no unsafe), so they get separate heaps.
+func heapTypeKey(t types.Type) string {
+	t = types.Unalias(t)
+	if _, ok := t.Underlying().(*types.Interface); ok {
+		return "Iface"
+	}
+	return typeStr(t)
 }
